@@ -72,6 +72,9 @@ func init() {
 		if id == "0.1" || id == "4.1" {
 			return genPOsapFar(r, id, cnt, emit).finds, true
 		}
+		if id == "2.1" {
+			return genPGiant(r, id, cnt, emit).finds, true
+		}
 		if r.chance(25) && id[len(id)-2:] != ".0" {
 			return genPLargeWrap(r, id, cnt, emit), true
 		}
@@ -81,6 +84,22 @@ func init() {
 			fs = append(fs, d.finds...)
 		}
 		return fs, true
+	}
+	// hash tables of 2^20 and more entries (anything that treats large tables specially, e.g. in Reset):
+	// twin comparison after Reset, oracle only (the model would need arrays of a million entries)
+	pbt := pt.withKinds("HP", "BHP", "DHP", "BDHP", "BUP", "HP", "BHP")
+	pbt.bigTable = true
+	pbt.minBuf, pbt.maxBuf = 6000, 30000
+	pbt.stream = 60000
+	pbt.staleBias = true
+	pbt.maxOps = 30
+	pbt.wReset = 25
+	inner := pSuite(pbt, []string{"p.twin.fresh"})
+	suites["p-reset-bigtable"] = func(r *rng, id string, cnt counters, emit func(line, out string)) ([]finding, bool) {
+		emit(fmt.Sprintf("S %s X", id), fmt.Sprintf("S %s ok", id))
+		fs, deep := inner(r, id, cnt, func(line, out string) {})
+		emit("E", "E")
+		return fs, deep
 	}
 	suites["p-bigbuf"] = func(r *rng, id string, cnt counters, emit func(line, out string)) ([]finding, bool) {
 		e := genPBig(r, id, cnt, emit)
